@@ -74,6 +74,10 @@ def do_call(call, ef):
             r = utils.valid_against_schema(call[1], call[2], expect_failure=ef)
         return 'True' if r is True else 'False' if r is False else 'Value:%r' % (r,)
     except BaseException as e:
+        # the schema / validation error: subclasses count as the class the property names
+        for base in (jsonschema.SchemaError, jsonschema.ValidationError):
+            if isinstance(e, base):
+                return 'Raise:' + base.__name__
         return 'Raise:' + type(e).__name__
 
 
